@@ -23,6 +23,7 @@ import (
 	"os"
 	"os/exec"
 	"path/filepath"
+	"regexp"
 	"runtime"
 	"runtime/debug"
 	"sort"
@@ -363,8 +364,8 @@ func (p *Prop[C]) execChild(c C) Verdict {
 			code = cmd.ProcessState.ExitCode()
 		}
 
-		return Fail("child process died (exit %d, err %v): stderr tail:\n%s\nstdout tail:\n%s",
-			code, err, tail(stderr.String(), 2500), tail(out, 800))
+		return Fail("child process died (exit %d, err %v): %s\nstdout tail:\n%s",
+			code, err, crashExcerpt(stderr.String()), tail(out, 800))
 	case <-time.After(to):
 		_ = cmd.Process.Kill()
 		<-done
@@ -372,6 +373,27 @@ func (p *Prop[C]) execChild(c C) Verdict {
 		return Fail("child timeout after %v real time (hang): stderr tail:\n%s", to,
 			tail(stderr.String(), 1500))
 	}
+}
+
+var goShapeRe = regexp.MustCompile(`go\.shape\.struct \{[^}]*\}`)
+
+// crashExcerpt returns the informative part of a dead child's stderr: from the first race report
+// / panic / fatal error line, with generic type noise removed.
+func crashExcerpt(s string) string {
+	s = goShapeRe.ReplaceAllString(s, "Case")
+
+	for _, marker := range []string{"WARNING: DATA RACE", "panic:", "fatal error:"} {
+		if i := strings.Index(s, marker); i >= 0 {
+			s = s[i:]
+			if len(s) > 3500 {
+				s = s[:3500] + "\n...(truncated)"
+			}
+
+			return s
+		}
+	}
+
+	return "stderr tail:\n" + tail(s, 2500)
 }
 
 func tail(s string, n int) string {
